@@ -266,8 +266,8 @@ template <size_t CAP> static std::string wake(const Args& a)
         //     blocked get (default or 2 s time-out) must keep waiting, and it receives the next item promptly
         long long worst = 0, anomalies = 0;
         for (int t = 0; t < trials * 6; ++t) {
-            queue<int, CAP> q; int res = -1, val = -1; std::atomic<int> ready{0}, done{0}; clk::time_point t0; long long dt = 0;
-            std::thread th([&] { ready++; res = (t % 2) ? q.get(val, 2000ms) : q.get(val); dt = ms(clk::now() - t0); done = 1; });
+            queue<int, CAP> q; int res = -1, val = -1; std::atomic<int> ready{0}, done{0}; clk::time_point t0 = clk::now(), tend = t0;
+            std::thread th([&] { ready++; res = (t % 2) ? q.get(val, 2000ms) : q.get(val); tend = clk::now(); done = 1; });
             while (ready.load() < 1) std::this_thread::yield();
             std::this_thread::sleep_for(std::chrono::milliseconds(3 + t % 3));
             int v = -1; q.put(5, 0ms); q.get(v, 0ms);
@@ -276,7 +276,7 @@ template <size_t CAP> static std::string wake(const Args& a)
             t0 = clk::now();
             q.put(9, 0ms);
             th.join();
-            if (res == 1) worst = std::max(worst, dt);
+            if (res == 1 && tend > t0) worst = std::max(worst, ms(tend - t0));     // it was still waiting when the second item came
         }
         r.push_back(trials * 6); r.push_back(worst); r.push_back(anomalies);
     }
